@@ -163,19 +163,35 @@ def tableLookup (tbl : List (List Nat × Outcome)) (rows : List Nat) : Outcome :
 
 /-! ## container histories (C19) -/
 
-def historyStep (p : Prov.P) (op : Json) : Except String (Prov.P × Json) := do
+/-- the object a request describes: the flag is on exactly for `Provenance(units=n)` -/
+def objOf (j : Json) : Except String Prov.Obj := do
+  let p ← provOf j
+  let simple := match (get j "default" : Except String Bool) with | .ok _ => true | .error _ => false
+  pure ⟨p, simple⟩
+
+def objOpOf (op : Json) : Except String Prov.Obj.Op := do
   let kind : String ← get op "op"
-  let wrap (r : Except Err Prov.P) : Prov.P × Json := match r with
-    | .ok p' => (p', Json.str "ok")
-    | .error e => (p, Json.mkObj [("err", Json.str e.name)])
   match kind with
-  | "set" => do let i : Int ← get op "i"; let e : Prov.Expr ← get op "e"; pure (wrap (Prov.setItem p i e))
-  | "insert" => do let i : Int ← get op "i"; let e : Prov.Expr ← get op "e"; pure (wrap (Prov.insert p i e))
-  | "append" => do let e : Prov.Expr ← get op "e"; pure (wrap (Prov.insert p p.data.length e))
-  | "del" => do let i : Int ← get op "i"; pure (wrap (Prov.delItem p i))
-  | "delmany" => do let idx : List Nat ← get op "idx"; pure (Prov.delMany p idx, Json.str "ok")
-  | "select" => do let idx : List Nat ← get op "idx"; pure (Prov.select p idx, Json.str "ok")
-  | "fork" => do let sizes : List Nat ← get op "sizes"; pure (Prov.fork p sizes, Json.str "ok")
+  | "set" => do let i : Int ← get op "i"; let e : Prov.Expr ← get op "e"; pure (.set i e)
+  | "insert" => do let i : Int ← get op "i"; let e : Prov.Expr ← get op "e"; pure (.insert i e)
+  | "del" => do let i : Int ← get op "i"; pure (.del i)
+  | "delmany" => do let idx : List Nat ← get op "idx"; pure (.delMany idx)
+  | _ => throw s!"unknown mutation {kind}"
+
+def historyStep (o : Prov.Obj) (op : Json) : Except String (Prov.Obj × Json) := do
+  let kind : String ← get op "op"
+  let p := o.p
+  let wrap (r : Prov.Obj × Option Err) : Prov.Obj × Json := match r.2 with
+    | none => (r.1, Json.str "ok")
+    | some e => (r.1, Json.mkObj [("err", Json.str e.name)])
+  let same (r : Prov.P × Json) : Prov.Obj × Json := ({ o with p := r.1 }, r.2)
+  match kind with
+  | "set" | "insert" | "del" | "delmany" => do pure (wrap (o.step (← objOpOf op)))
+  | "append" => do let e : Prov.Expr ← get op "e"; pure (wrap (o.step (.insert p.data.length e)))
+  | "select" => do let idx : List Nat ← get op "idx"; pure (o.select idx, Json.str "ok")
+  | "fork" => do let sizes : List Nat ← get op "sizes"; pure (o.fork sizes, Json.str "ok")
+  | "simple" => pure (o, ToJ.toJ o.simple)
+  | _ => same <$> match kind with
   | "get" => do
       let i : Int ← get op "i"
       match Prov.getItem p i with
@@ -195,7 +211,7 @@ def historyStep (p : Prov.P) (op : Json) : Except String (Prov.P × Json) := do
   | "dump" => pure (p, provJ p)
   | _ => throw s!"unknown history op {kind}"
 
-def runHistory (p : Prov.P) (ops : List Json) : Except String (List Json) := do
+def runHistory (p : Prov.Obj) (ops : List Json) : Except String (List Json) := do
   let mut p := p
   let mut outs : List Json := []
   for op in ops do
@@ -354,8 +370,17 @@ def handle (j : Json) : Except String Ans := do
       let nullLabel : Nat ← getD j "nullLabel" 0
       pure (ansOf (do let ro ← Neighbor.rowsOf p; pure (Kernel.unitReduce ro labels dist nTest nullLabel)))
   | "neighbor" => do
-      let p : Prov.P ← get j "prov"
-      let simple : Bool ← getD j "simple" false
+      let p0 : Prov.P ← get j "prov"
+      let simple0 : Bool ← getD j "simple" false
+      -- "edits": the container is an OBJECT with a mutation history; the fast-path flag is then the model's own
+      let edits : Option (List Json) ← getD j "edits" none
+      let (p, simple) ← match edits with
+        | none => pure (p0, simple0)
+        | some es => do
+            let o ← objOf (← (j.getObjVal? "prov"))
+            let ops ← es.mapM objOpOf
+            let o' := o.run ops
+            pure (o'.p, o'.simple)
       let yTrain : List Int ← get j "yTrain"
       let yTest : List Int ← get j "yTest"
       let dist : List (List Rat) ← get j "dist"
@@ -382,7 +407,7 @@ def handle (j : Json) : Except String Ans := do
       let tt := (allArgs C n).map (fun a => e.eval a)
       pure (.ok (Json.mkObj [("expr", exprJ e), ("data3", ToJ.toJ e.data3), ("table", ToJ.toJ tt)]))
   | "history" => do
-      let p : Prov.P ← get j "prov"
+      let p : Prov.Obj ← objOf (← (j.getObjVal? "prov"))
       let ops : List Json ← get j "ops"
       let outs ← runHistory p ops
       pure (.ok (Json.arr outs.toArray))
@@ -390,6 +415,35 @@ def handle (j : Json) : Except String Ans := do
       let p : Prov.P ← get j "p"; let q : Prov.P ← get j "q"
       let r := Prov.join p q
       pure (.ok (Json.mkObj [("prov", provJ r), ("table", truthTable r)]))
+  | "units" => do
+      -- op sequence on a unit registry: {"mention":k} | {"eq":[k,v]} | {"from":[pos,idx]} | {"union":{...}} ; answers per op
+      let us : Option (List Int) ← getD j "units" none
+      let cs : Option (List Int) ← getD j "cands" none
+      let ops : List Json ← get j "ops"
+      let mut u := Units.mk us cs
+      let mut outs : List Json := []
+      for op in ops do
+        if let .ok (k : Int) := get op "mention" then
+          match Units.getItem u k with
+          | .ok u' => u := u'; outs := outs ++ [Json.str "ok"]
+          | .error e => outs := outs ++ [Json.mkObj [("err", Json.str e.name)]]
+        else if let .ok (kv : Int × Int) := get op "eq" then
+          let r := Units.eqPred u kv.1 kv.2
+          u := r.1
+          match r.2 with
+          | .ok d => outs := outs ++ [ToJ.toJ [d.1, d.2]]
+          | .error e => outs := outs ++ [Json.mkObj [("err", Json.str e.name)]]
+        else if let .ok (d : Nat × Nat) := get op "from" then
+          match Units.fromData u d with
+          | .ok kv => outs := outs ++ [ToJ.toJ [kv.1, kv.2]]
+          | .error e => outs := outs ++ [Json.mkObj [("err", Json.str e.name)]]
+        else if let .ok (o : Json) := get op "union" then
+          let ok : Option (List Int) ← getD o "units" none
+          let oc : Option (List Int) ← getD o "cands" none
+          u := Units.union u (Units.mk ok oc)
+          outs := outs ++ [Json.str "ok"]
+        else throw "unknown units op"
+      pure (.ok (Json.mkObj [("outs", Json.arr outs.toArray), ("keys", ToJ.toJ u.keys), ("cands", ToJ.toJ u.cands)]))
   -- enumeration / sampling ------------------------------------------------------------------
   | "brute" => do
       let p : Prov.P ← get j "prov"
